@@ -53,6 +53,7 @@
 #include "media.h"           // for AbstractImageFile, make_hfe_file
 #include "storage.h"         // for DriveConfig, DriveAllocation, AbstractDrive
 #include "track.h"           // for Sector, SectorAddress, IbmFmDecoder, ...
+#include "verif_trace.h"
 
 #undef ULTRA_VERBOSE
 //#define ULTRA_VERBOSE 1
@@ -340,6 +341,9 @@ public:
     std::optional<DFS::SectorBuffer> read_block(unsigned long lba) override
     {
       if (lba >= sectors_.size())
+	VERIF_EVENT("{\"e\":\"fread\",\"fmt\":\"hfe\",\"side\":%u,\"spt\":%u,\"lba\":%lu,\"cyl\":0,\"rec\":0,\"found\":-1,\"size\":0,\"sum\":0}",
+		    unsigned(side_), unsigned(geom_.sectors), lba);
+      if (lba >= sectors_.size())
 	return std::nullopt;
       SectorAddress addr;
       // This adapter presents one side; the sectors of side 1 are
@@ -348,6 +352,10 @@ public:
       addr.cylinder = lba / geom_.sectors;
       addr.record = lba % geom_.sectors;
       std::vector<Sector>::const_iterator it = find_sector(addr);
+      VERIF_EVENT("{\"e\":\"fread\",\"fmt\":\"hfe\",\"side\":%u,\"spt\":%u,\"lba\":%lu,\"cyl\":%u,\"rec\":%u,\"found\":%d,\"size\":%lu,\"sum\":%lu}",
+		  unsigned(side_), unsigned(geom_.sectors), lba, unsigned(addr.cylinder), unsigned(addr.record),
+		  it != sectors_.cend() ? 1 : 0, it != sectors_.cend() ? (unsigned long)it->data.size() : 0ul,
+		  it != sectors_.cend() ? verif::sum(it->data.begin(), it->data.end()) : 0ul);
       if (it != sectors_.cend())
 	{
 	  DFS::SectorBuffer buf;
